@@ -81,7 +81,7 @@ func Prop() *core.Prop {
 		Witnesses:     witnesses(),
 		Require: []string{
 			"sequences", "join_success", "joined_sampled_while_in", "joined_sampled_while_out", "join_room_error_returned", "join_cancelled",
-			"leave_success", "kicks", "foreign_presences", "invites_delivered_once", "barriers",
+			"leave_success", "kicks", "foreign_presences", "invites_delivered_once", "membership_questions_asked_from_inside_the_invitation_callback", "barriers",
 			"forced_M1_reached", "forced_M2_reached", "forced_M3_reached", "overlapping_rejoin_answers", "calls_with_nick_same", "calls_with_nick_different", "calls_with_password", "calls_with_history_option", "replaced_channels_sampled_while_out",
 			"own_removal_301", "own_removal_307", "own_removal_321", "own_removal_322", "own_removal_332", "own_departure_affiliation_outcast", "others_removal_301",
 			"forced_M4_reached", "forced_M5_reached", "forced_M6_reached", "forced_M7_reached", "forced_M8_reached", "forced_M9_reached", "forced_M10_reached", "cases_whose_client_has_no_invitation_callback", "late_answers_of_the_other_kind", "stories_error_then_cancel", "foreign_malformed_payloads",
